@@ -1,8 +1,9 @@
 from contracts.workspace_io import IoCall, Geoh5Getter, CloseContract, ExitContract, FetchActiveWorkspace
-from contracts.workspace_io import CloseFlushes
+from contracts.workspace_io import CloseFlushes, FetchChildrenClosed
+from contracts.removal import ConcatAttributesPending
 from contracts.tree import OpenMode, OpenOnOpenWorkspace, OpenResetsRegistries
 from contracts.sessions import CloseHistories
-CONTRACTS = [IoCall, Geoh5Getter, CloseContract, CloseFlushes, ExitContract, FetchActiveWorkspace, OpenOnOpenWorkspace, OpenResetsRegistries, OpenMode, CloseHistories]
+CONTRACTS = [IoCall, Geoh5Getter, CloseContract, CloseFlushes, ExitContract, FetchActiveWorkspace, OpenOnOpenWorkspace, OpenResetsRegistries, OpenMode, FetchChildrenClosed, ConcatAttributesPending, CloseHistories]
 
 MANIFEST = {
     "category": "proof",
